@@ -53,6 +53,8 @@ func merge(ms ...map[string]string) map[string]string {
 
 func checkC08(c *Ctx) {
 	c08TrailingCommaFollowsCloser(c)
+	c08NothingAfterTrailingComment(c)
+	c08CommentInsideBracket(c)
 	for _, p := range []string{"cue/format", "internal/pretty"} {
 		c.checkCounterBalance("layout.nesting-counter-balanced", p, nil)
 	}
@@ -454,4 +456,83 @@ func c08TrailingCommaFollowsCloser(c *Ctx) {
 	_ = guard
 	c.check("layout.trailing-comma-follows-closer", f.Name+badClass, f.Decl.Pos(), bad == "" && n > 0,
 		fmt.Sprintf("for an authored bracket the trailing-comma decision and the closer-on-its-own-line decision must be the same function of the layout signals (%d assignments of %d signals compared), or the second fmt pass adds the comma the first one withheld: %s", n, len(keys), bad))
+}
+
+// c08NothingAfterTrailingComment: a `// …` comment runs to the end of the
+// line. In the v2 printer a field's attributes must therefore be placed before
+// the field's trailing comment; appending them to a document that already ends
+// in the trailing comment prints `2 // x @a(b)`, which re-parses with the
+// attribute inside the comment — the attribute is silently lost.
+func c08NothingAfterTrailingComment(c *Ctx) {
+	n, nTrail := 0, 0
+	for _, f := range c.funcs(c.pkg("internal/pretty")) {
+		info := f.Info()
+		k := 0
+		ast.Inspect(f.Body, func(x ast.Node) bool {
+			call, ok := x.(*ast.CallExpr)
+			if !ok || calleeName(info, call) != "internal/pretty.appendAttrs" || len(call.Args) != 2 {
+				return true
+			}
+			n++
+			k++
+			endsInComment := false
+			ast.Inspect(call.Args[0], func(y ast.Node) bool {
+				if inner, ok := y.(*ast.CallExpr); ok && exprString(inner.Fun) == "joinTrailing" {
+					endsInComment = true
+				}
+				return true
+			})
+			if endsInComment {
+				nTrail++
+			}
+			c.check("layout.nothing-after-trailing-comment", fmt.Sprintf("%s#appendAttrs%d", f.Name, k), call.Pos(), !endsInComment,
+				"appendAttrs must not be applied to a document that already carries the field's trailing line comment (joinTrailing()): the attributes land behind `//` and are lost on re-parse; pass them ahead of the comment instead")
+			return true
+		})
+	}
+	c.check("layout.nothing-after-trailing-comment", "internal/pretty#appendAttrs-sites", 0, n >= 1,
+		fmt.Sprintf("the scan saw %d appendAttrs call sites (expected at least one)", n))
+}
+
+// c08CommentInsideBracket: a comment the parser attached to a bracketed node
+// ({…} or […]) either sits inside the brackets (`{ // c`) or trails them
+// (`} // c`). Printing an interior comment behind the closer changes what the
+// comment belongs to and, inside a list, swallows the `]` (the output no longer
+// parses). Whenever source offsets are available the classification must
+// compare them — for empty *and* non-empty brackets.
+func c08CommentInsideBracket(c *Ctx) {
+	f := c.fn("internal/pretty", "commentTrailsBracket")
+	cf := newCaseFn(c, f)
+	var cmp, hasA, hasB, nonEmptyList string
+	for k := range cf.atoms() {
+		switch {
+		case strings.Contains(k, ".Offset()") && strings.Contains(k, " < "):
+			cmp = k
+		case strings.HasSuffix(k, "p1.HasAbsPos()"):
+			hasA = k
+		case strings.HasSuffix(k, ".HasAbsPos()") && !strings.HasPrefix(k, "p1."):
+			hasB = k
+		case strings.HasPrefix(k, "0 < len(p0.List)"):
+			nonEmptyList = k
+		}
+	}
+	if cmp == "" || hasA == "" || hasB == "" {
+		c.check("comments.interior-comment-stays-inside", f.Name, f.Decl.Pos(), false, fmt.Sprintf("anchor: offset comparison not found (cmp=%q, %q, %q)", cmp, hasA, hasB))
+		return
+	}
+	// is `cmp` "close < slash" (comment after the closer) or the reverse?
+	afterMeansTrue := strings.HasPrefix(cmp, "p1.Offset() < ")
+	for _, empty := range []bool{true, false} {
+		for _, after := range []bool{true, false} {
+			truth := map[string]bool{"p3": true, "p2": empty, hasA: true, hasB: true, cmp: after == afterMeansTrue}
+			if nonEmptyList != "" {
+				truth[nonEmptyList] = true
+			}
+			rets, _ := cf.walk(cf.g.Entry, truth)
+			want := fmt.Sprint(after)
+			c.check("comments.interior-comment-stays-inside", fmt.Sprintf("%s/empty=%v/comment-after-closer=%v", f.Name, empty, after), f.Decl.Pos(),
+				len(rets) == 1 && rets[0] == want,
+				fmt.Sprintf("with source offsets available, a comment on a bracketed node (empty=%v) that stands %s the closer must be classified trailing=%v; reachable results %v", empty, map[bool]string{true: "after", false: "before"}[after], after, rets))
+		}
+	}
 }
